@@ -747,7 +747,8 @@ Definition wf (d : doc) : bool :=
 
 (* the other library rules generated projects can trigger: unresolved references, a schema
    type outside the JSON-schema vocabulary (an alias of time.Time prints "date-time"), paths
-   that do not start with a slash, repeated operation ids *)
+   that do not start with a slash, two parameters with one name in one location, repeated
+   operation ids *)
 Definition valid_type (t : str) : bool :=
   one_of t ["object"; "string"; "integer"; "number"; "boolean"; "array"]%string.
 
@@ -756,6 +757,7 @@ Definition lib_model_ok (d : doc) : bool :=
   refs_closed d &&
   forallb (fun nc => valid_type (k_type (snd nc))) (doc_comps d) &&
   forallb (fun o => has_prefix [slash] (dop_path o)) (doc_ops d) &&
+  forallb (fun o => unique_params (dop_params o)) (doc_ops d) &&
   nodup_b (map dop_id (doc_ops d)).
 
 (* libopenapi (3.1 only) refuses an "infinite circular reference": a required property whose
